@@ -290,7 +290,7 @@ def run2 (cmd : String) (rest : String) : Option String :=
                              ap == "1", sh == "1", sd == "1"⟩
         match mapNeuronlist cfg n na kwargs (par == "1") ik ok with
         | .ok p => pure (s!"OK pos={showNats p.exclPos} kw=" ++ ",".intercalate p.exclKw ++ " passed=" ++
-                         ",".intercalate p.passed ++ s!" force={if p.forceInplace then 1 else 0} swap={if p.swapInplace then 1 else 0} omit={if p.omitFailures then 1 else 0}")
+                         ",".intercalate p.passed ++ s!" force={if p.forceInplace then 1 else 0} swap={match swapOf Gen.NblastJobs.swapFacts p.swapInplace (par == "1") with | some true => "1" | some false => "0" | none => "none"} omit={if p.omitFailures then 1 else 0}")
         | .error e => pure ("ERR " ++ (match e with
             | .noParallel => "noParallel" | .canZipLen => "canZipLen" | .mustZipLen => "mustZipLen" | .typeError => "typeError"))
       | _ => none
